@@ -71,6 +71,10 @@ def judge(ck, trace_path, lines, name, nontrivial, case=None, diag=""):
     v = ck.validate(os.path.join(SPECDIR, "TransportTrace.tla"), os.path.join(SPECDIR, "TransportTrace.cfg"), trace_path,
                     n_exec=len(execs))
     ck.note("%s: %d executions, crashed=%d, inconclusive=%d" % (name, len(execs), crashed, inconclusive))
+    if len(execs) >= 20 and inconclusive * 3 > len(execs):
+        # executions that ran into the step limit decide nothing: a third of them is a harness problem (or a livelock) that
+        # must not pass silently
+        raise vf.Infra("%s: %d of %d executions ended at the step limit (inconclusive)" % (name, inconclusive, len(execs)))
     if execs:
         ck.sample({"kind": name, "case": cline(0), "events": execs[0][1][:14]})
     if not v.accepted:
